@@ -362,6 +362,13 @@ def binop(I, op, a, b, inplace=False):
         return a * b
     if op is ast.Mult and isinstance(b, (list, str, tuple)) and isinstance(a, int):
         return a * b
+    if op is ast.Mult and isinstance(a, list) and len(a) == 1 and isinstance(b, Sym) and b.kind == INT \
+            and isinstance(a[0], (bool, int)):
+        # [c] * n for a symbolic n: a constant array of length max(n, 0)
+        kind = BOOL if isinstance(a[0], bool) else INT
+        arr = z3.K(z3.IntSort(), I.term(a[0], kind))
+        n = Sym(INT, z3.If(b.t < 0, 0, b.t))
+        return SArr(arr, n, kind)
     if op is ast.Add and (isinstance(a, SSeq) or isinstance(b, SSeq)):
         return seq_concat(I, a, b)
     if op is ast.Mod and isinstance(a, str) and not is_sym(b):
@@ -689,6 +696,8 @@ def elem_value(I, t, elem):
 
 
 def arr_get(I, a, ti):
+    if a.elem == 'any':
+        return I.unknown('untracked list column')
     if a.elem == 'dt':
         return SDateTime(Sym(INT, z3.Select(a.arr, ti)), Sym(INT, z3.Select(a.arr2, ti)))
     return Sym(a.elem, z3.Select(a.arr, ti))
@@ -937,6 +946,23 @@ def slice_(I, o, s):
     raise Unsupported(f'slice of {type(o).__name__}')
 
 
+def reclist_store(I, lst, ti, v):
+    """lst[ti] = v for a record list (v: heap object or an element view of a record list); in place"""
+    for fname, (kind, arr) in list(lst.fields.items()):
+        if kind == 'any':
+            continue
+        if isinstance(v, RecView):
+            fk, farr = v.owner.fields[fname]
+            val = z3.Select(farr, I.term(v.i))
+        elif isinstance(v, Obj):
+            if fname not in v.fields:
+                raise Unsupported(f'stored object lacks field {fname}')
+            val = elem_term(I, I.resolve(v.fields[fname]), kind)
+        else:
+            raise Unsupported('store of a non-record into a record list')
+        lst.fields[fname] = (kind, z3.Store(arr, ti, val))
+
+
 def store_subscript(I, o, k, v):
     if isinstance(o, list):
         k = I.resolve(k)
@@ -969,6 +995,10 @@ def store_subscript(I, o, k, v):
     if isinstance(o, SArr):
         i = norm_index(I, I.resolve(k), o.n)
         arr_store(I, o, I.term(i), v)
+        return None
+    if isinstance(o, SRecList):
+        i = norm_index(I, I.resolve(k), o.n)
+        reclist_store(I, o, I.term(i), I.resolve(v))
         return None
     if isinstance(o, Unknown):
         return None
